@@ -8,6 +8,18 @@ VERIF = os.path.dirname(os.path.dirname(os.path.abspath(__file__)))
 SEEDED = os.path.join(VERIF, 'seeded')
 
 NEEDS = {
+    'C01-r6m1': 'the EarthEllipsoid the converter was built from is re-assigned or destroyed afterwards (reference member)',
+    'C01-r6m2': 'heights of several km (closed-form first guess and a cap of 2 refinement passes)',
+    'C02-r6m1': 'first point exactly at latitude 0, longitude 0 on an un-anchored converter (no-fix guard skips the auto-anchor)',
+    'C02-r6m2': 'an elevated anchor and a point within about 64 m of it (flat-earth fast path with surface radii)',
+    'C03-r6m1': 'a point above about 66.5 deg of latitude (isometric latitude clamped to +-pi/2)',
+    'C03-r6m2': 'a caller that aggregate-initialises TangentProjectionParameters in the order the header used to declare (field order changed; not observable inside the library)',
+    'C04-r6m1': 'one estimator re-used: find without a correspondence list after a call on other data (member covariance workspace not reset)',
+    'C04-r6m2': 'a cloud far from the origin relative to its extent (only the source set is centred): a rounding statement',
+    'C05-r6m1': 'the aligned overload with a homogeneous point type (Map with CARTESIAN_DIM rows over POINT_SIZE storage)',
+    'C05-r6m2': 'a 3-D point type with exactly 6 correspondences',
+    'C07-r6m1': 'weightedEstimate() with a preconditioner matrix that is not a multiple of the identity',
+    'C07-r6m2': 'a small-magnitude Y through the SVD path (JtY_.isZero())',
     'C01-r5m1': 'a height above 32.768 km that is not float-representable (altitude field narrowed to float)',
     'C01-r5m2': 'an exactly spherical ellipsoid, b == a (e2 computed as inf/inf)',
     'C02-r5m1': 'local points tens of km from the anchor at mm accuracy, or an orthonormality check (rotation assembled in float)',
